@@ -20,7 +20,7 @@ def check(ctx, rep):
         "kept in the object, and append() hands what was kept to the first job of a sequence that was empty. R19.10 (= R20.6) no class-level mutable object is mutated through an instance (state shared by every sequence / job). "
         "R19.11 no live iteration while removing: a loop of requires() (or of a helper or generator it runs) whose body can remove from "
         "self.required iterates the varargs tuple, a snapshot (list(x), tuple(x), x.copy()), another attribute or a name an isinstance guard "
-        "shows not to be a set - never an argument that may be self.required itself.")
+        "shows not to be a set - never an argument that may be self.required itself. R19.12 sanitize() and bypass_and_remove(), which delete requirement edges wholesale, are called only by the documented graph surgery (keep_only, keep_only_between, themselves): never by add / update / remove, by a sequence, by requires() or by the run.")
     rep.trusted = ["T8 set/list semantics"]
     buildrules.construction(ctx, rep, "R19.1", "R19.2", "R19.3", "R19.4", "R19.5")
     from . import common
@@ -34,3 +34,4 @@ def check(ctx, rep):
     buildrules.sequence_keeps_requirements(ctx, rep, "R19.9")
     common.no_shared_class_state(ctx, rep, "R19.10")
     buildrules.no_live_iteration_while_removing(ctx, rep, "R19.11")
+    buildrules.pruners_called_only_by(ctx, rep, "R19.12")
